@@ -740,6 +740,19 @@ class HTTPSConnection(HTTPConnection):
             # Remove trailing '.' from fqdn hostnames to allow certificate validation
             server_hostname_rm_dot = server_hostname.rstrip(".")
 
+            # When forwarding through an HTTPS proxy the TLS peer is the proxy
+            # itself, so it's verified the way that was configured for the proxy.
+            ssl_context = self.ssl_context
+            assert_hostname = self.assert_hostname
+            assert_fingerprint = self.assert_fingerprint
+            if self.proxy_is_forwarding and self.proxy_config is not None:
+                if self.proxy_config.ssl_context is not None:
+                    ssl_context = self.proxy_config.ssl_context
+                if self.proxy_config.assert_hostname is not None:
+                    assert_hostname = self.proxy_config.assert_hostname
+                if self.proxy_config.assert_fingerprint is not None:
+                    assert_fingerprint = self.proxy_config.assert_fingerprint
+
             sock_and_verified = _ssl_wrap_socket_and_match_hostname(
                 sock=sock,
                 cert_reqs=self.cert_reqs,
@@ -753,10 +766,10 @@ class HTTPSConnection(HTTPConnection):
                 key_file=self.key_file,
                 key_password=self.key_password,
                 server_hostname=server_hostname_rm_dot,
-                ssl_context=self.ssl_context,
+                ssl_context=ssl_context,
                 tls_in_tls=tls_in_tls,
-                assert_hostname=self.assert_hostname,
-                assert_fingerprint=self.assert_fingerprint,
+                assert_hostname=assert_hostname,
+                assert_fingerprint=assert_fingerprint,
             )
             self.sock = sock_and_verified.socket
 
